@@ -48,7 +48,10 @@ def handlers : List (String × Handler) :=
     ("c09.hist.pinned", C09.handlerPinned),
     ("c20.load", C20.handler),
     ("c17.expand", C17.handlerExpand),
-    ("c17.lang", C17.handlerLang) ]
+    ("c17.lang", C17.handlerLang),
+    ("c01.answers", C01.handler),
+    ("c03.answers", C01.handler),
+    ("c04.answers", C01.handler) ]
 
 partial def loop (h : IO.FS.Stream) (out : IO.FS.Stream) (f : Handler) : IO Unit := do
   let line ← h.getLine
